@@ -86,6 +86,14 @@ def replay(payload):
 
 
 def _main():
+    # when started as `python -m pyvc.bounded` this file is module __main__; the checks register themselves in the
+    # importable module pyvc.bounded, so delegate to that copy
+    import pyvc.bounded as real
+
+    return real._main_impl()
+
+
+def _main_impl():
     op, name, tier, seed = sys.argv[1], sys.argv[2], sys.argv[3], int(sys.argv[4])
     sys.path.insert(0, os.environ.get("VERIF_REPO", "/repo"))
     sys.setrecursionlimit(3000)
